@@ -29,6 +29,27 @@ def module_flags(modname):
     return flags
 
 
+def lint_no_contract_calls(mod):
+    """CrossHair short-circuits calls to functions that carry a contract (it assumes their
+    postcondition instead of executing them).  A harness condition calling another
+    condition would therefore be vacuous; refuse such modules."""
+    import ast
+    from mpgverif.cond import REGISTRY
+    names = {c.name for c in REGISTRY.values()}
+    tree = ast.parse(open(mod.__file__).read())
+    bad = []
+    for fn in ast.walk(tree):
+        if isinstance(fn, ast.FunctionDef):
+            for n in ast.walk(fn):
+                if isinstance(n, ast.Call) and isinstance(n.func, ast.Name) and n.func.id in names:
+                    bad.append(f'{fn.name} -> {n.func.id}')
+                if isinstance(n, ast.Call) and isinstance(n.func, ast.Attribute) and n.func.attr in names:
+                    bad.append(f'{fn.name} -> {n.func.attr}')
+    if bad:
+        raise RuntimeError('contracted harness functions must not be called from harness code: '
+                           + ', '.join(bad))
+
+
 def extract_call(message, fname):
     """'... when calling f(ARGS) (which returns R)' -> 'ARGS' (balanced scan)."""
     key = f'when calling {fname}('
@@ -123,6 +144,7 @@ def main():
             inttok.install()
         mod = importlib.import_module(modname)
         from mpgverif.cond import REGISTRY
+        lint_no_contract_calls(mod)
         c = REGISTRY[cname]
         fn = c.fn
         target = fn if mode == 'main' else make_twin(fn, tmpdir)
